@@ -98,12 +98,20 @@ def check(ctx, chart, spec, ct, stage, lines, impl, metas):
             if cells is None or len(cells) != len(lvls) or any(len(c) != n for c in cells):
                 fail("categories-range", f"categories reference {ref} is {len(cells or [])} col x {len((cells or [[]])[0])} rows; {len(lvls)} level(s), ptCount {n}")
                 continue
+            # dates: the cached point is the date's serial in the CHART's date system, the cell its serial in the workbook's
+            # own (the two systems are 1462 days apart, 1461 before the 1900 leap-year bug)
+            is_date = spec.get("kind") == "date" and len(lvls) == 1
+            c1904 = lab.chart_is_1904(root)
             for k, (lv, (_, pts)) in enumerate(zip(lvls, npts)):
                 col = cells[len(lvls) - 1 - k]  # leaf level is the right-most column
                 for i, t in pts:
                     cell = col[i]
                     try:
-                        ok = (cell == t) or (isinstance(cell, float) and t is not None and float(t) == cell) or (cell is None and (t or "") == "")
+                        if is_date and i < len(spec["cats"]) and t is not None and isinstance(cell, float):
+                            d = spec["cats"][i]
+                            ok = float(t) == float(lab.excel_serial(d, c1904)) and cell == float(lab.excel_serial(d, wb.date1904))
+                        else:
+                            ok = (cell == t) or (isinstance(cell, float) and t is not None and float(t) == cell) or (cell is None and (t or "") == "")
                     except ValueError:
                         ok = False
                     if not ok:
@@ -233,6 +241,15 @@ def correspond(ctx):
                 ctx.count("combination-chart(bar+line)")
                 check(ctx, chart, spec, ct, "combo", lines, impl, metas)
             if rng.random() < 0.8 and spec["series"]:
+                if kind == "cat" and rng.random() < 0.3:
+                    # the 1904 date system as other producers declare it: val="1", or the bare element (val defaults to true)
+                    d = chart._chartSpace.xpath("./c:date1904")
+                    if d:
+                        if rng.random() < 0.5:
+                            d[0].set("val", "1")
+                        elif "val" in d[0].attrib:
+                            del d[0].attrib["val"]
+                        ctx.count("foreign-state-date1904")
                 if kind == "cat":
                     spec2, cd2 = lab.gen_cat_data(rng, n_series=(1 if "PIE" in ct.name else rng.choice([1, 2, 5])))
                 else:
